@@ -1,6 +1,7 @@
 package main
 
 import (
+	"strings"
 	"go/token"
 	"go/types"
 
@@ -209,4 +210,41 @@ func (lv *loopVar) alwaysAdvances() (bool, int) {
 		}
 	}
 	return !cyc, len(lv.steps)
+}
+
+// bareKey: a function name without its receiver type: "(*fstxn.FsTxn).dropInodes"
+// and "fstxn.dropInodes" are the same helper once an unexported method is
+// turned into a plain function (or the reverse).  A "|suffix" is kept.
+func bareKey(k string) string {
+	name, rest := k, ""
+	if i := strings.Index(k, "|"); i >= 0 {
+		name, rest = k[:i], k[i:]
+	}
+	if strings.HasPrefix(name, "(") {
+		if j := strings.Index(name, ")."); j > 0 {
+			recv := strings.TrimPrefix(name[1:j], "*")
+			pkg := recv
+			if d := strings.LastIndex(recv, "."); d >= 0 {
+				pkg = recv[:d]
+			}
+			name = pkg + "." + name[j+2:]
+		}
+	}
+	return name + rest
+}
+
+// byFunc looks key up in a table keyed by function names, accepting the other
+// spelling (method / plain function) of an unexported helper.
+func byFunc[T any](m map[string]T, key string) (T, bool) {
+	if v, ok := m[key]; ok {
+		return v, true
+	}
+	bk := bareKey(key)
+	for k, v := range m {
+		if bareKey(k) == bk {
+			return v, true
+		}
+	}
+	var zero T
+	return zero, false
 }
